@@ -70,6 +70,35 @@ def run(ctx):
     c03_.fresh_child_scopes(ctx, "C02.R5", core, cg,
                             doc="a do-block and a function body bind their names in a scope created for them (Environment::extend / extend_with in the same arm), never in the enclosing one: evaluating the same expression twice, or once under a new name, sees the same bindings")
 
+    # ---------------- R6 an operator's result depends on the operand values, not on how the operands were written
+    ctx.rule("C02.R6", "the operator evaluator looks at its operands' values only: it never matches on the syntactic form of an operand expression (a literal exponent taking a different code path than a variable holding the same number makes `x ^ 3` differ from `n = 3; x ^ n`)", floor=1)
+    n_ops = 0
+    for fname in sorted(core.hir):
+        if not fname.startswith(CORE + "expressions::evaluate_binary_op") or core.hir[fname].get("body") is None:
+            continue
+        hf = core.hir[fname]
+        ast_params = {bn for p_, t_ in zip(hf.get("params", []), hf.get("inputs", [])) if "ast::Spanned<blots_core::ast::Expr>" in t_ for bn in H.pat_binds(p_)}
+        looks = []
+        for x in H.walk(hf["body"]):
+            pat, scr = None, None
+            if H.kind(x) == "LetExpr":
+                pat, scr = x["pat"], x["init"]
+            elif H.kind(x) == "Match":
+                scr = x["scrut"]
+                pat = {"k": "Or", "pats": [a_["pat"] for a_ in x["arms"]]}
+            if pat is None:
+                continue
+            if any("ast::Expr::" in v_ for v_ in H.pat_variants(pat)) and any(H.kind(y) == "Field" and y["name"] == "node" and H.path_local(y["e"]) in ast_params for y in H.walk(scr)):
+                looks.append(H.loc(x))
+        n_ops += 1
+        ctx.inst("C02.R6", "%s#operand-syntax" % fname.replace(CORE, ""), not looks, "operand expressions of type SpannedExpr: %s; places where the result depends on an operand's syntactic form: %s" % (sorted(ast_params), looks or "none"), H.loc(hf["body"]))
+    if n_ops == 0:
+        ctx.inst("C02.R6", "operator-evaluator", None, "no evaluate_binary_op* function found", None)
+
+    # ---------------- R7 the --output file holds this run's result and nothing of an earlier one
+    from rules import c06 as c06_
+    c06_.output_file_rule(ctx, "C02.R7", cli)
+
     # ---------------- R1 effects inventory
     ctx.rule("C02.R1", "every impure primitive (time, io, env, fs, process, thread, unseeded rng, mutable statics) reachable from the evaluator is one of the allowed items, pinned to its function and match arm", floor=8)
     bic_name = CORE + "functions::BuiltInFunction::call"
@@ -231,6 +260,18 @@ def run_identity(ctx, cg, local, crates, rid="C02.R4", doc=None):
         x = H.strip(x)
         return H.kind(x) == "Path" and (x["res"].get("def") or "").endswith("values::Value::Null")
 
+    # a Value's (or heap pointer's) own Display / Debug shows its heap index (`list@12`): turning one into text on the evaluation path
+    # makes the text depend on what was allocated before
+    n_disp = 0
+    for name in local:
+        fn = M.Fn(cg.fns[name], name)
+        for b in fn.call_blocks():
+            c_ = fn.callee(b) or ""
+            at_ = fn.term(b).get("argtys") or []
+            if ("ToString>::to_string" in c_ or c_.endswith("::to_string") or "Argument::<'_>::new_display" in c_ or "Argument::<'_>::new_debug" in c_) and at_ and is_val(at_[0]):
+                n_disp += 1
+                ctx.inst(rid, "%s#display-of-value[%d]" % (name.replace(CORE, ""), n_disp), False, "a %s is turned into text through its own Display / Debug (%s): lists, records, strings and functions print their heap index" % (at_[0], c_.split("::")[-1]), fn.loc(b))
+    ctx.inst(rid, "display-of-value#none", n_disp == 0, "%d evaluator-reachable functions scanned; Values / heap pointers formatted through their own Display: %d" % (len(local), n_disp), None)
     # ordering: every form is a call in MIR
     for name in local:
         if "as core::cmp::Partial" in name:
